@@ -166,7 +166,9 @@ theorem step_ext (cfg : Cfg) (s : State) (e : Step) : Ext s (step cfg s e) := by
           · rename_i h
             exact ⟨Nat.le_refl _, cas_ext h, fun _ h => List.mem_cons_of_mem _ h⟩
           · exact ⟨Nat.le_refl _, RowsExt.refl _, fun _ h => h⟩
-        · exact ⟨Nat.le_refl _, RowsExt.refl _, fun _ h => List.mem_cons_of_mem _ h⟩
+        · split
+          · exact ⟨Nat.le_refl _, RowsExt.refl _, fun _ h => h⟩
+          · exact ⟨Nat.le_refl _, RowsExt.refl _, fun _ h => List.mem_cons_of_mem _ h⟩
         · split
           · rename_i h
             exact ⟨Nat.le_refl _, del_ext h, fun _ h => List.mem_cons_of_mem _ h⟩
@@ -194,7 +196,9 @@ theorem step_ext (cfg : Cfg) (s : State) (e : Step) : Ext s (step cfg s e) := by
     · exact Ext.refl s
     · intro inst _ _
       split
-      · exact ⟨Nat.le_refl _, RowsExt.refl _, fun _ h => List.mem_cons_of_mem _ h⟩
+      · split
+        · exact ⟨Nat.le_refl _, RowsExt.refl _, fun _ h => h⟩
+        · exact ⟨Nat.le_refl _, RowsExt.refl _, fun _ h => List.mem_cons_of_mem _ h⟩
       · split
         · rename_i h
           exact ⟨Nat.le_refl _, del_ext h, fun _ h => List.mem_cons_of_mem _ h⟩
@@ -241,6 +245,9 @@ def Due (s : State) (j : Nat) : Prop := ∃ r : Row, s.rows[j]? = some r ∧ r.e
 def WasCommitted (s : State) (j : Nat) : Prop :=
   ∃ r : Row, s.rows[j]? = some r ∧ (r.vis = .committed ∨ r.vis = .deleted)
 def Invoked (s : State) (j : Nat) : Prop := ∃ t i, Ev.invoked j t i ∈ s.trace
+/-- the prepare-and-invoke piece of job j has run: the target was invoked, or the job cannot be
+    prepared (`cfg.bad`: logged and dropped, by design not invoked) -/
+def Done (cfg : Cfg) (s : State) (j : Nat) : Prop := Invoked s j ∨ j ∈ cfg.bad
 
 theorem Due.mono {s s' : State} {j : Nat} (h : Ext s s') : Due s j → Due s' j := by
   rintro ⟨r, hr, hd⟩
@@ -256,15 +263,20 @@ theorem Invoked.mono {s s' : State} {j : Nat} (h : Ext s s') : Invoked s j → I
   rintro ⟨t, i, hm⟩
   exact ⟨t, i, h.trace _ hm⟩
 
-structure InstSafe (s : State) (x : Inst) : Prop where
+theorem Done.mono {cfg : Cfg} {s s' : State} {j : Nat} (h : Ext s s') : Done cfg s j → Done cfg s' j := by
+  rintro (hi | hb)
+  · exact Or.inl (hi.mono h)
+  · exact Or.inr hb
+
+structure InstSafe (cfg : Cfg) (s : State) (x : Inst) : Prop where
   heap : ∀ h, h ∈ x.heap → ∃ r : Row, s.rows[h.id]? = some r ∧ r.executeAt = h.executeAt
   tasks : ∀ t, t ∈ x.tasks → Due s t.id ∧ (t.stage ≠ .popped → WasCommitted s t.id) ∧
-    (t.stage = .invoked → Invoked s t.id)
+    (t.stage = .invoked → Done cfg s t.id)
   sel : ∀ cands, x.poll = .selected cands → ∀ c, c ∈ cands → Due s c.1
   run : ∀ q b, x.poll = .running q b → (∀ j, j ∈ q → Due s j ∧ WasCommitted s j) ∧
-    (b = true → ∀ j q', q = j :: q' → Invoked s j)
+    (b = true → ∀ j q', q = j :: q' → Done cfg s j)
 
-theorem InstSafe.mono {s s' : State} {x : Inst} (h : Ext s s') (hx : InstSafe s x) : InstSafe s' x := by
+theorem InstSafe.mono {cfg : Cfg} {s s' : State} {x : Inst} (h : Ext s s') (hx : InstSafe cfg s x) : InstSafe cfg s' x := by
   refine ⟨?_, ?_, ?_, ?_⟩
   · intro e he
     obtain ⟨r, hr, hea⟩ := hx.heap e he
@@ -294,12 +306,12 @@ theorem EvSafe.mono {s s' : State} {e : Ev} (h : Ext s s') (he : EvSafe s e) : E
     exact ⟨he.1.mono h, by have := h.clock; have := he.2; omega⟩
   | deleted j t i => trivial
 
-structure Safe (s : State) : Prop where
-  insts : ∀ x, x ∈ s.insts → InstSafe s x
+structure Safe (cfg : Cfg) (s : State) : Prop where
+  insts : ∀ x, x ∈ s.insts → InstSafe cfg s x
   trace : ∀ e, e ∈ s.trace → EvSafe s e
-  del : ∀ j (r : Row), s.rows[j]? = some r → r.vis = .deleted → Invoked s j
+  del : ∀ j (r : Row), s.rows[j]? = some r → r.vis = .deleted → Done cfg s j
 
-theorem safe_init (n : Nat) : Safe (init n) := by
+theorem safe_init (cfg : Cfg) (n : Nat) : Safe cfg (init n) := by
   refine ⟨?_, ?_, ?_⟩
   · intro x hx
     simp [init, freshInst] at hx
@@ -308,11 +320,11 @@ theorem safe_init (n : Nat) : Safe (init n) := by
   · intro e h; simp [init] at h
   · intro j r h; simp [init] at h
 
-theorem safe_build {s s' : State} (hs : Safe s) (hext : Ext s s')
-    (hinsts : ∀ x, x ∈ s'.insts → x ∈ s.insts ∨ InstSafe s' x)
+theorem safe_build {cfg : Cfg} {s s' : State} (hs : Safe cfg s) (hext : Ext s s')
+    (hinsts : ∀ x, x ∈ s'.insts → x ∈ s.insts ∨ InstSafe cfg s' x)
     (htrace : ∀ e, e ∈ s'.trace → e ∈ s.trace ∨ EvSafe s' e)
     (hdel : ∀ j (r' : Row), s'.rows[j]? = some r' → r'.vis = .deleted →
-      (∃ r : Row, s.rows[j]? = some r ∧ r.vis = .deleted) ∨ Invoked s' j) : Safe s' := by
+      (∃ r : Row, s.rows[j]? = some r ∧ r.vis = .deleted) ∨ Done cfg s' j) : Safe cfg s' := by
   refine ⟨?_, ?_, ?_⟩
   · intro x hx
     rcases hinsts x hx with h | h
@@ -593,13 +605,13 @@ theorem find_task {l : List Task} {j : Nat} {t : Task} (h : l.find? (fun t => t.
   have := List.find?_some h
   simpa using this
 
-theorem safe_step (cfg : Cfg) (s : State) (e : Step) (hs : Safe s) : Safe (step cfg s e) := by
+theorem safe_step (cfg : Cfg) (s : State) (e : Step) (hs : Safe cfg s) : Safe cfg (step cfg s e) := by
   have hext := step_ext cfg s e
   cases e with
   | schedule i ra key tx =>
     simp only [step, stepSchedule] at hext ⊢
     revert hext
-    apply onInst_cases (P := fun x => Ext s x → Safe x)
+    apply onInst_cases (P := fun x => Ext s x → Safe cfg x)
     · intro _; exact hs
     · intro inst hi ha hext
       have hm := (hs.insts inst (List.mem_of_getElem? hi)).mono hext
@@ -631,7 +643,7 @@ theorem safe_step (cfg : Cfg) (s : State) (e : Step) (hs : Safe s) : Safe (step 
   | pop i =>
     simp only [step, stepPop] at hext ⊢
     revert hext
-    apply onInst_cases (P := fun x => Ext s x → Safe x)
+    apply onInst_cases (P := fun x => Ext s x → Safe cfg x)
     · intro _; exact hs
     · intro inst hi ha
       have hsi := hs.insts inst (List.mem_of_getElem? hi)
@@ -658,7 +670,7 @@ theorem safe_step (cfg : Cfg) (s : State) (e : Step) (hs : Safe s) : Safe (step 
   | task i j =>
     simp only [step, stepTask] at hext ⊢
     revert hext
-    apply onInst_cases (P := fun x => Ext s x → Safe x)
+    apply onInst_cases (P := fun x => Ext s x → Safe cfg x)
     · intro _; exact hs
     · intro inst hi ha
       have hsi := hs.insts inst (List.mem_of_getElem? hi)
@@ -702,36 +714,53 @@ theorem safe_step (cfg : Cfg) (s : State) (e : Step) (hs : Safe s) : Safe (step 
               intro t' ht'; exact hm.tasks t' (mem_dropTask ht')
             · intro e he; exact Or.inl he
             · intro j' r' h hv; exact Or.inl ⟨r', h, hv⟩
-        · -- invoke
+        · -- prepare + invoke
           rename_i hstage
-          intro hext
-          have hm := hsi.mono hext
           have hwc' : WasCommitted s j := hwc (by simp [hstage])
-          have hinv' : Invoked (step cfg s (.task i j)) j := by
-            simp only [step, stepTask, onInst, hi, ha, hfind, hstage]
-            exact ⟨s.clock, i, by simp⟩
-          apply safe_build hs hext
-          · intro x hx
-            refine mem_set_cases _ hx ⟨hm.heap, ?_, hm.sel, hm.run⟩
-            intro t' ht'
-            obtain ⟨t0, h0, hid, hcase⟩ := mem_setStage ht'
-            obtain ⟨a, b, c⟩ := hm.tasks t0 h0
-            rw [hid]
-            rcases hcase with ⟨h1, h2⟩ | h2
-            · refine ⟨a, fun _ => ?_, fun _ => ?_⟩
-              · rw [h1]; exact hwc'.mono hext
-              · rw [h1]; exact ⟨s.clock, i, by simp⟩
-            · subst h2; exact ⟨a, b, c⟩
-          · intro e he
-            simp only [List.mem_cons] at he
-            rcases he with rfl | he
-            · obtain ⟨r, hr, hea⟩ := hdue
-              exact Or.inr ⟨⟨r, hr, hea⟩, hwc'.mono hext, Nat.le_refl _⟩
-            · exact Or.inl he
-          · intro j' r' h hv; exact Or.inl ⟨r', h, hv⟩
+          split
+          · -- the job cannot be prepared: logged, not invoked
+            rename_i hbad
+            have hbad' : j ∈ cfg.bad := by simpa using hbad
+            intro hext
+            have hm := hsi.mono hext
+            apply safe_build hs hext
+            · intro x hx
+              refine mem_set_cases _ hx ⟨hm.heap, ?_, hm.sel, hm.run⟩
+              intro t' ht'
+              obtain ⟨t0, h0, hid, hcase⟩ := mem_setStage ht'
+              obtain ⟨a, b, c⟩ := hm.tasks t0 h0
+              rw [hid]
+              rcases hcase with ⟨h1, h2⟩ | h2
+              · refine ⟨a, fun _ => ?_, fun _ => ?_⟩
+                · rw [h1]; exact hwc'.mono hext
+                · rw [h1]; exact Or.inr hbad'
+              · subst h2; exact ⟨a, b, c⟩
+            · intro e he; exact Or.inl he
+            · intro j' r' h hv; exact Or.inl ⟨r', h, hv⟩
+          · intro hext
+            have hm := hsi.mono hext
+            apply safe_build hs hext
+            · intro x hx
+              refine mem_set_cases _ hx ⟨hm.heap, ?_, hm.sel, hm.run⟩
+              intro t' ht'
+              obtain ⟨t0, h0, hid, hcase⟩ := mem_setStage ht'
+              obtain ⟨a, b, c⟩ := hm.tasks t0 h0
+              rw [hid]
+              rcases hcase with ⟨h1, h2⟩ | h2
+              · refine ⟨a, fun _ => ?_, fun _ => ?_⟩
+                · rw [h1]; exact hwc'.mono hext
+                · rw [h1]; exact Or.inl ⟨s.clock, i, by simp⟩
+              · subst h2; exact ⟨a, b, c⟩
+            · intro e he
+              simp only [List.mem_cons] at he
+              rcases he with rfl | he
+              · obtain ⟨r, hr, hea⟩ := hdue
+                exact Or.inr ⟨⟨r, hr, hea⟩, hwc'.mono hext, Nat.le_refl _⟩
+              · exact Or.inl he
+            · intro j' r' h hv; exact Or.inl ⟨r', h, hv⟩
         · -- delete
           rename_i hstage
-          have hinv' : Invoked s j := hinv hstage
+          have hinv' : Done cfg s j := hinv hstage
           split
           · rename_i rows' hdel
             intro hext
@@ -761,7 +790,7 @@ theorem safe_step (cfg : Cfg) (s : State) (e : Step) (hs : Safe s) : Safe (step 
   | pollSelect i =>
     simp only [step, stepPollSelect] at hext ⊢
     revert hext
-    apply onInst_cases (P := fun x => Ext s x → Safe x)
+    apply onInst_cases (P := fun x => Ext s x → Safe cfg x)
     · intro _; exact hs
     · intro inst hi ha
       have hsi := hs.insts inst (List.mem_of_getElem? hi)
@@ -784,7 +813,7 @@ theorem safe_step (cfg : Cfg) (s : State) (e : Step) (hs : Safe s) : Safe (step 
   | pollCapture i =>
     simp only [step, stepPollCapture] at hext ⊢
     revert hext
-    apply onInst_cases (P := fun x => Ext s x → Safe x)
+    apply onInst_cases (P := fun x => Ext s x → Safe cfg x)
     · intro _; exact hs
     · intro inst hi ha
       have hsi := hs.insts inst (List.mem_of_getElem? hi)
@@ -820,38 +849,58 @@ theorem safe_step (cfg : Cfg) (s : State) (e : Step) (hs : Safe s) : Safe (step 
   | pollNext i =>
     simp only [step, stepPollNext] at hext ⊢
     revert hext
-    apply onInst_cases (P := fun x => Ext s x → Safe x)
+    apply onInst_cases (P := fun x => Ext s x → Safe cfg x)
     · intro _; exact hs
     · intro inst hi ha
       have hsi := hs.insts inst (List.mem_of_getElem? hi)
       split
       · rename_i j q hpoll
-        intro hext
-        have hm := hsi.mono hext
         obtain ⟨hall, _⟩ := hsi.run _ _ hpoll
         obtain ⟨hdue, hwc⟩ := hall j (by simp)
-        apply safe_build hs hext
-        · intro x hx
-          refine mem_set_cases _ hx ⟨hm.heap, hm.tasks, ?_, ?_⟩
-          · intro c hc; simp at hc
-          · intro q' b hqb
-            simp at hqb
-            obtain ⟨rfl, rfl⟩ := hqb
-            refine ⟨(hm.run _ _ hpoll).1, ?_⟩
-            intro _ j' q'' hjq
-            simp at hjq
-            rw [← hjq.1]
-            exact ⟨s.clock, i, by simp⟩
-        · intro e he
-          simp only [List.mem_cons] at he
-          rcases he with rfl | he
-          · obtain ⟨r, hr, hea⟩ := hdue
-            exact Or.inr ⟨⟨r, hr, hea⟩, hwc.mono hext, Nat.le_refl _⟩
-          · exact Or.inl he
-        · intro j' r' h hv; exact Or.inl ⟨r', h, hv⟩
+        split
+        · -- the head cannot be prepared: logged, not invoked
+          rename_i hbad
+          have hbad' : j ∈ cfg.bad := by simpa using hbad
+          intro hext
+          have hm := hsi.mono hext
+          apply safe_build hs hext
+          · intro x hx
+            refine mem_set_cases _ hx ⟨hm.heap, hm.tasks, ?_, ?_⟩
+            · intro c hc; simp at hc
+            · intro q' b hqb
+              simp at hqb
+              obtain ⟨rfl, rfl⟩ := hqb
+              refine ⟨(hm.run _ _ hpoll).1, ?_⟩
+              intro _ j' q'' hjq
+              simp at hjq
+              rw [← hjq.1]
+              exact Or.inr hbad'
+          · intro e he; exact Or.inl he
+          · intro j' r' h hv; exact Or.inl ⟨r', h, hv⟩
+        · intro hext
+          have hm := hsi.mono hext
+          apply safe_build hs hext
+          · intro x hx
+            refine mem_set_cases _ hx ⟨hm.heap, hm.tasks, ?_, ?_⟩
+            · intro c hc; simp at hc
+            · intro q' b hqb
+              simp at hqb
+              obtain ⟨rfl, rfl⟩ := hqb
+              refine ⟨(hm.run _ _ hpoll).1, ?_⟩
+              intro _ j' q'' hjq
+              simp at hjq
+              rw [← hjq.1]
+              exact Or.inl ⟨s.clock, i, by simp⟩
+          · intro e he
+            simp only [List.mem_cons] at he
+            rcases he with rfl | he
+            · obtain ⟨r, hr, hea⟩ := hdue
+              exact Or.inr ⟨⟨r, hr, hea⟩, hwc.mono hext, Nat.le_refl _⟩
+            · exact Or.inl he
+          · intro j' r' h hv; exact Or.inl ⟨r', h, hv⟩
       · rename_i j q hpoll
         obtain ⟨hall, hhead⟩ := hsi.run _ _ hpoll
-        have hinv' : Invoked s j := hhead rfl j q rfl
+        have hinv' : Done cfg s j := hhead rfl j q rfl
         split
         · rename_i rows' hdel
           intro hext
@@ -897,7 +946,7 @@ theorem safe_step (cfg : Cfg) (s : State) (e : Step) (hs : Safe s) : Safe (step 
       · intro j' r' h hv; exact Or.inl ⟨r', h, hv⟩
     · exact hs
 
-theorem safe_reachable (cfg : Cfg) (n : Nat) (steps : List Step) : Safe (run cfg (init n) steps) :=
-  run_inv cfg (fun s e h => safe_step cfg s e h) steps _ (safe_init n)
+theorem safe_reachable (cfg : Cfg) (n : Nat) (steps : List Step) : Safe cfg (run cfg (init n) steps) :=
+  run_inv cfg (fun s e h => safe_step cfg s e h) steps _ (safe_init cfg n)
 
 end Mistral.Sched
